@@ -220,7 +220,10 @@ def parse_output(o):
         if m:
             r["nprops"] += 1
             if m.group(4) != "SUCCESS":
-                r["failed"].append({"id": m.group(1), "line": m.group(2), "label": m.group(3),
+                lab = m.group(3)
+                if lab.startswith("unwinding assertion") or lab.startswith("recursion unwinding"):
+                    lab = "unwinding assertion " + m.group(1)
+                r["failed"].append({"id": m.group(1), "line": m.group(2), "label": lab,
                                     "status": m.group(4)})
             continue
         if line.startswith("VERIFICATION SUCCESSFUL"):
@@ -343,6 +346,8 @@ def flatten_value(prefix, v, out):
     n = v.get("name")
     if n == "struct":
         for m in v.get("members", []):
+            if m["name"].startswith("$"):
+                continue
             flatten_value(prefix + "." + m["name"], m["value"], out)
     elif n == "array":
         for e in v.get("elements", []):
@@ -392,6 +397,8 @@ def extract_input(trace_json):
                 leaves = []
                 flatten_value(lhs, st.get("value", {}), leaves)
                 for k, v in leaves:
+                    if "$" in k:
+                        continue
                     if k not in vals:
                         order.append(k)
                     vals[k] = v
@@ -445,6 +452,10 @@ def native_replay(prop, h, cfg, vals, work, timeout=120):
         + [os.path.join(VERIF, "harness", s) for s in h.get("extra_harness_src", [])]
     for s in h.get("post_link", []):
         srcs.append(os.path.join(VERIF, "harness", prop, s))
+    # C99 'inline' bodies of ext2fs.h get their external definitions from inline.c
+    inl = os.path.join(REPO, "lib/ext2fs/inline.c")
+    if not h.get("replay_no_inline") and inl not in srcs and "lib/ext2fs/inline.c" not in h.get("extra_src", []):
+        srcs.append(inl)
     exe = os.path.join(d, "replay")
     cmd = ["gcc", "-g", "-O0", "-fsanitize=address,undefined", "-fno-sanitize-recover=undefined",
            "-w", "-o", exe] + srcs + \
